@@ -107,7 +107,7 @@ def gen(rng, tier, k):
         x = rng.choice(pool_times) + rng.choice([0.0, 0.0, 0.0, -0.5, 0.5, 100.0, 50.0])
         y = rng.choice(pool_times) + rng.choice([0.0, 0.0, 0.5, 100.0, 250.0, 1000.0])
         ops.append(dict(op=op, src=src, i=rng.randint(-n - 2, n + 2), sl=[rng.choice([None, 0, 1, -1, 2, n]), rng.choice([None, -1, 1, n, n + 3, 0]), rng.choice([None, None, 1, 2, -1])],
-                        seed=rng.randrange(10**6), reverse=rng.random() < 0.5, sort=rng.random() < 0.5, x=x, y=max(x, y) if rng.random() < 0.8 else y,
+                        seed=rng.randrange(10**6), reverse=rng.random() < 0.5, sort=rng.random() < 0.5, x=x, y=max(x, y) if rng.random() < 0.7 else y,
                         ie=[rng.random() < 0.5, rng.random() < 0.5], ie_bool=rng.random() < 0.2, head=rng.random() < 0.5, tail=rng.random() < 0.5,
                         end=rng.random() < 0.5, dflt=rng.random() < 0.35, foreign=rng.random() < 0.3))
     return dict(cls=cname, style=style, offsets=offs, vseed=rng.randrange(10**6), via=rng.choice(["items", "items", "from_dict_rows", "from_dict_cols", "from_dict_partial"]),
@@ -259,6 +259,10 @@ def run(ctx, case):
             elif op == "between":
                 if L._is_hold(cur):
                     res = cur.between(o["x"], o["y"], include_ends=tuple(o["ie"]), include_head=o["head"], include_tail=o["tail"])
+                    if o["x"] != o["y"] and o["end"]:
+                        # bounds the other way round: with heads and tails both counted a hold spanning both bounds still qualifies
+                        cur.between(max(o["x"], o["y"]), min(o["x"], o["y"]), include_ends=tuple(o["ie"]), include_head=True, include_tail=True)
+                        cur.between(max(o["x"], o["y"]), min(o["x"], o["y"]), include_ends=tuple(o["ie"]), include_head=o["head"], include_tail=o["tail"])
                 else:
                     res = cur.between(o["x"], o["y"], include_ends=o["ie"][0] if o["ie_bool"] else tuple(o["ie"]))
         except Exception:
